@@ -27,6 +27,8 @@ def plan(tier):
         for L in space.DEEP_LENGTHS[tier][:2]:
             for st in ('fwd', 'rev'):
                 t.append({'kind': 'deep', 'pattern': pat, 'L': L, 'storage': st})
+    for pat in ('not-and', 'xor-nor') if tier == 'quick' else ('not-and', 'xor-nor', 'cmp', 'or3'):
+        t.append({'kind': 'deep', 'pattern': pat, 'L': space.HUGE_LENGTH, 'storage': 'fwd'})
     for n, k, a, split in fams:
         for tk in space.tasks(n, k, ALPHAS[a], split):
             tk.update(alpha=a, pol='all' if (n + k <= 4 and tier == 'thorough') or n + k <= 3 else ('last2' if k >= 3 else 'core'))
@@ -36,7 +38,7 @@ def plan(tier):
 
 def describe(tier):
     return {
-        'rule': 'deep: chains of 1200/3000 gates (deeper than the recursion limit), six patterns, both storage orders, through the solver-based medium check; medium: 12 arithmetic generator circuits (up to ~250 gates) and 44 chains over two inputs (every binary type, mixed types, NOT/IFF; lengths 10..14, 30, 126..128, 140, 300): for every input assignment and every single-output / all-output selection the CNF plus the assignment is satisfiable iff the outputs are True and has exactly one model (decided by the complete solver vsat with model enumeration). E1: every circuit of F(n,k,A) x output policy x selection of output indices (None, [], every '
+        'rule': 'huge: chains of 70000 gates (175k-280k clauses, beyond 2^16 / 2^17), solver handed exactly the reduction; deep: chains of 1200/3000 gates (deeper than the recursion limit), six patterns, both storage orders, through the solver-based medium check; medium: 12 arithmetic generator circuits (up to ~250 gates) and 44 chains over two inputs (every binary type, mixed types, NOT/IFF; lengths 10..14, 30, 126..128, 140, 300): for every input assignment and every single-output / all-output selection the CNF plus the assignment is satisfiable iff the outputs are True and has exactly one model (decided by the complete solver vsat with model enumeration). E1: every circuit of F(n,k,A) x output policy x selection of output indices (None, [], every '
         'index list of length<=2 incl. repeats); all 2^|vars| assignments of the produced CNF enumerated; '
         'is_circuit_satisfiable executed once per admissible solver answer (every model). A case = '
         '(circuit, outputs, selection); distinct = distinct (n, |vars|, |clauses|, |S|) outcomes.',
@@ -154,6 +156,22 @@ def check_one(n, gates, outs, acc, c=None, net0=None, ref=None, sels=None):
             ok, cnf2 = guarded(acc, 'Cnf.from_circuit', case, Cnf.from_circuit, c)
             if ok and cnf2.get_raw() != cnf.get_raw():
                 acc.violation('Cnf.from_circuit/differs', case, '')
+            if ok:
+                # the returned formula is the caller's: edit it in place (negate a literal of every clause, drop the
+                # last clause), then ask for the reduction of the same circuit again
+                want_raw = [list(cl) for cl in cnf.get_raw()]
+                try:
+                    mine = cnf2.get_raw()
+                    for cl in mine:
+                        if cl:
+                            cl[0] = -cl[0]
+                    if mine:
+                        mine.pop()
+                    cnf3 = Cnf.from_circuit(c)
+                    if [list(cl) for cl in cnf3.get_raw()] != want_raw:
+                        acc.violation('Cnf.from_circuit/second-call-returns-the-edited-formula', case, '')
+                except Exception as e:  # noqa: BLE001
+                    acc.violation(f'Cnf.from_circuit/second-call-raises-{type(e).__name__}', case, repr(e)[:200])
             # solver hand-back, for every model the environment could return
             raw = cnf.get_raw()
             nv = max([n] + [abs(l) for cl in raw for l in cl])
@@ -298,6 +316,38 @@ def check_medium(acc, name, c):
                 acc.violation('tseytin/extension-not-unique', case, f'input row {j}: a variable is not determined by the inputs', {'medium': True})
                 break
         acc.outcome('cnf', ('medium', name.split('(')[0], nv > 128))
+        if sel is None:
+            # the satisfiability query: the solver must be handed exactly this formula, and the answer / model
+            # must be right
+            import pysat.solvers as ps
+            from cirbo.sat import is_circuit_satisfiable
+
+            seen = []
+
+            def chooser(clauses, nvars, seen=seen):
+                seen.append(clauses)
+                return vsat.solve(clauses, nvars)
+
+            ps.ENV.chooser = chooser
+            acc.transitions += 1
+            try:
+                res = is_circuit_satisfiable(c)
+            except Exception as e:  # noqa: BLE001
+                acc.violation(f'is_circuit_satisfiable/raises-{type(e).__name__}', case, repr(e)[:200], {'medium': True})
+                continue
+            finally:
+                ps.ENV.chooser = None
+            want_any = any(all((ref[o] >> j) & 1 for o in net.outputs) for j in range(1 << n))
+            if seen and sorted(tuple(sorted(cl)) for cl in seen[0]) != sorted(tuple(sorted(cl)) for cl in raw):
+                acc.violation('is_circuit_satisfiable/solver-given-different-cnf', case, f'{len(seen[0])} clauses handed over, the reduction has {len(raw)}', {'medium': True})
+            if res.answer != want_any:
+                acc.violation('is_circuit_satisfiable/wrong-answer', case, f'{res.answer}', {'medium': True})
+            elif res.answer:
+                m = res.model
+                x = [(i + 1) in m for i in range(n)] if m is not None else None
+                j = sum((1 << (n - 1 - i)) for i in range(n) if x[i]) if x is not None else 0
+                if m is None or not vsat.check_model(raw, m) or not all((ref[o] >> j) & 1 for o in net.outputs):
+                    acc.violation('is_circuit_satisfiable/model-projection-not-satisfying', case, '', {'medium': True})
     acc.sample({'medium': name, 'selection': None})
 
 
